@@ -350,6 +350,25 @@ pub fn generate(rng: &mut Rng, p: &Pools, mode: &str) -> Workload {
             }
         }
     }
+    // parse storms: one workload in twenty-five has every thread parse (and ask one question of) expressions of
+    // very different lengths, the shortest next to the longest: whatever the parser keeps between or across calls --
+    // in the library or in the parser generator's own process-wide settings -- is then shared by unequal callers
+    if !c10 && rng.chance(1, 25) && !p.long_exprs.is_empty() {
+        let t = *rng.pick(&p.instants);
+        let shorts = ["24/7", "Mo", "off", "PH off", "Mo-Fr 09:00-17:00", "sunrise-sunset"];
+        for (i, th) in threads.iter_mut().enumerate() {
+            for _ in 0..rng.range(2, 5) {
+                let long = (i % 2 == 0) == rng.chance(3, 4);
+                let e = if long { rng.pick(&p.long_exprs).clone() } else { rng.pick(&shorts).to_string() };
+                let pos = rng.usize_below(th.len() + 1);
+                th.insert(pos, match rng.below(3) {
+                    0 => Op::Parse(e),
+                    1 => Op::Normalize(e),
+                    _ => Op::StateNext { e, c: Ctx::Default, t },
+                });
+            }
+        }
+    }
     let n_threads = threads.len();
     // swarm, sizes: one workload in three hundred makes tens of thousands of distinct comments / expressions
     if !c10 && rng.chance(1, 300) {
